@@ -22,7 +22,7 @@ type boundsSite struct {
 }
 
 func (s boundsSite) key() string {
-	return fmt.Sprintf("%s#%s", s.Fn.Key, core.ExprStr(s.Expr))
+	return fmt.Sprintf("%s#%s", s.Fn.Key, core.KeyStr(s.Fn, s.Expr))
 }
 
 // lenFact describes what a fact says about len(x): len(x) OP c holds.
